@@ -16,6 +16,38 @@ build() {
   fi
   return 0
 }
+fuzz_stage() {
+  # second engine: libFuzzer over the same checks (see harness/src/fuzz.rs). Additive: if the nightly
+  # fuzz build is unavailable the proptest verdict stands and the evidence says so.
+  local ID="$1" SEED="${VERIF_SEED:-1}" OUT=$VERIF/out
+  local RUNS=400000; [ "$ID" = "C20" ] && RUNS=40000; [ "$ID" = "C06" ] && RUNS=150000; [ "$ID" = "C07" ] && RUNS=150000
+  [ -n "${VERIF_FUZZ_RUNS:-}" ] && RUNS=$VERIF_FUZZ_RUNS
+  mkdir -p $OUT/corpus $OUT/artifacts $OUT/logs
+  if ! ( cd $VERIF/harness && cargo +nightly fuzz build --fuzz-dir fuzz --target-dir $VERIF/target/fuzz -s none all >$OUT/logs/fuzz-build.log 2>&1 ); then
+    echo "note: fuzz stage skipped (cargo +nightly fuzz build failed, see $OUT/logs/fuzz-build.log)"
+    "$BIN" fuzz-evidence "$ID" /dev/null "skipped: fuzz build unavailable" >/dev/null
+    return 0
+  fi
+  rm -rf $OUT/corpus/$ID; rm -f $OUT/artifacts/$ID-*
+  "$BIN" fuzz-seed "$ID" $OUT/corpus/$ID 48 "$SEED"
+  local FB=$(find $VERIF/target/fuzz -path '*release/all' -type f | head -1)
+  RTAVERIF_FUZZ_ONLY=$ID "$FB" $OUT/corpus/$ID -runs=$RUNS -seed=$SEED -max_len=768 -len_control=0 -timeout=120 -rss_limit_mb=8000 \
+      -artifact_prefix=$OUT/artifacts/$ID- >$OUT/logs/fuzz-$ID.log 2>&1
+  local RC=$?
+  if [ $RC -eq 0 ]; then
+    "$BIN" fuzz-evidence "$ID" $OUT/logs/fuzz-$ID.log "no violation" >/dev/null
+    grep -E "DONE|Done" $OUT/logs/fuzz-$ID.log | tail -2
+    return 0
+  fi
+  local ART=$(ls $OUT/artifacts/$ID-crash-* 2>/dev/null | head -1)
+  if [ -n "$ART" ]; then
+    "$BIN" fuzz-evidence "$ID" $OUT/logs/fuzz-$ID.log "violation" >/dev/null
+    RTAVERIF_FUZZ_ONLY=$ID "$BIN" fuzz-replay "$ART"; return $?
+  fi
+  echo "INCONCLUSIVE: fuzz stage ended with rc=$RC without a crash artifact (per-input timeout or memory limit); see $OUT/logs/fuzz-$ID.log"
+  "$BIN" fuzz-evidence "$ID" $OUT/logs/fuzz-$ID.log "inconclusive: timeout / memory limit" >/dev/null
+  return 2
+}
 mkdir -p $VERIF/target $VERIF/evidence $VERIF/replays
 case "${1:-}" in
   build)
@@ -30,7 +62,14 @@ case "${1:-}" in
   C[0-9][0-9])
     ID="$1"; TIER="${2:-${VERIF_TIER:-quick}}"
     if [ "$ID" = "C20" ]; then build both || exit 2; else build || exit 2; fi
-    exec "$BIN" check "$ID" --tier "$TIER" --seed "${VERIF_SEED:-1}"
+    if [ "$TIER" != "thorough" ]; then
+      exec "$BIN" check "$ID" --tier "$TIER" --seed "${VERIF_SEED:-1}"
+    fi
+    # thorough = proptest stage (large) + coverage-guided fuzz stage for the properties with byte decoders
+    "$BIN" check "$ID" --tier thorough --seed "${VERIF_SEED:-1}"; RC=$?
+    [ $RC -ne 0 ] && exit $RC
+    case "$ID" in C06|C07|C08|C10|C11|C13|C14|C20) ;; *) exit 0;; esac
+    fuzz_stage "$ID"; exit $?
     ;;
   *)
     echo "usage: $0 build | <ID> <quick|thorough> | replay <ID> <file>"; exit 2;;
